@@ -378,7 +378,7 @@ def _check_function(acc, fname, m0, src, r, renumber_ok=True, label=''):
             acc.v(key('idempotent', b, a), f'{fname} twice differs from once on {src}: {s_a} -> {b}', {'smiles': src, 'function': fname, 'signature': sig}, str(b))
     except Exception as e:
         if valid:
-            acc.v(f'exc:{type(e).__name__}@{fam("exc")}', f'second {fname} raised {type(e).__name__}: {e} at {_where(e)} on {s_a}',
+            acc.v(_invalid_result_key(e, fname, a) or f'exc:{type(e).__name__}@{fam("exc")}', f'second {fname} raised {type(e).__name__}: {e} at {_where(e)} on {s_a}',
                   {'smiles': src, 'function': fname, 'signature': sig}, f'{type(e).__name__}: {e}')
     # renumbering
     if renumber_ok:
@@ -418,6 +418,11 @@ def _check_function(acc, fname, m0, src, r, renumber_ok=True, label=''):
                 elif uses_resonance and I.only_electrons_moved(a, p, mp) and _resonance_choice(m0, p0, mp):
                     # recorded root cause: fix_resonance pairs donors and acceptors in set.pop() order of the atom numbers
                     acc.v('resonance:choice-by-atom-number', f'{fname}: fix_resonance alone already depends on numbering for {src}: {s_a} vs {p}',
+                          {'smiles': src, 'function': fname, 'permutation': _perm_of(mp), 'flavour': flavour}, str(p))
+                elif _tautomer_fix_choice(fname, m0, p0, mp, a, p):
+                    # recorded root cause (independent predicate, see _tautomer_fix_choice): the hetero-arene tautomer fix picks its tautomer in match
+                    # order, i.e. by atom number
+                    acc.v('renumber:tautomer-fix-by-atom-number', f'{fname} returns another TAUTOMER after renumbering ({flavour}) for {src}: {s_a} vs {p}',
                           {'smiles': src, 'function': fname, 'permutation': _perm_of(mp), 'flavour': flavour}, str(p))
                 else:
                     acc.v(key('renumber', p, p0, p0), f'{fname} depends on numbering ({flavour}) for {src}: {s_a} vs {p} under {_perm_of(mp)[:120]}',
@@ -466,11 +471,44 @@ def _check_function_(acc, fname, m0, src, r, renumber_ok=True, label=''):
         return None
 
 
+_NO_TAUT = {'standardize()': 'standardize(fix_tautomers=False)', 'canonicalize()': 'canonicalize(fix_tautomers=False)',
+            'canonicalize(keep_kekule=True)': 'canonicalize(keep_kekule=True, fix_tautomers=False)'}
+
+
+def _tautomer_fix_choice(fname, m0, p0, mp, a, p):
+    """family predicate of `renumber:tautomer-fix-by-atom-number` - all three must hold:
+    (1) the call runs with tautomer fixing enabled; (2) the two results are tautomers of each other: the same atoms with the same elements and the
+    same bonds under the renumbering, equal net charge and equal total hydrogens - only hydrogen positions / bond orders differ; (3) attribution
+    experiment: the same call with fix_tautomers=False is numbering independent on this very input"""
+    base = OPTION_BASE.get(fname, fname)
+    off = _NO_TAUT.get(base)
+    if off is None or off not in FUNCS:
+        return False
+    try:
+        back = {v: k for k, v in mp.items()}
+        if {back.get(n, n) for n in p._atoms} != set(a._atoms):
+            return False
+        if any(a._atoms[back.get(n, n)].atomic_number != x.atomic_number for n, x in p._atoms.items()):
+            return False
+        if {frozenset((back.get(n, n), back.get(k, k))) for n, k, _ in p.bonds()} != {frozenset((n, k)) for n, k, _ in a.bonds()}:
+            return False
+        if O.net_charge(a) != O.net_charge(p) or O.total_h(a) != O.total_h(p):
+            return False
+        x, y = m0.copy(), p0.copy()
+        FUNCS[off][0](x)
+        FUNCS[off][0](y)
+        return str(x) == str(y) or _same_molecule(x, y) is True or ('keep_kekule=True' in off and _same_aromatic_form(x, y))
+    except Exception:
+        return False
+
+
 def _same_aromatic_form(x, y):
+    """the two results are Kekule structures of one aromatic molecule: equal canonical strings after thiele(), or - where the strings differ, which
+    inside C01's recorded gap they may for one molecule under two numberings - isomorphic including configuration by the independent oracle"""
     x, y = x.copy(), y.copy()
     x.thiele(fix_tautomers=False)
     y.thiele(fix_tautomers=False)
-    return str(x) == str(y)
+    return str(x) == str(y) or _same_molecule(x, y) is True
 
 
 def _resonance_choice(m0, p0, mp=None):
@@ -651,7 +689,7 @@ def _check_tautomers(acc, m0, src, r, renumber_ok, options=()):
     if not O.weakly_valid(m0) or len(m0) > 40 or I.hydrogen_bonded_hydrogens(m0):
         return
     acc.n += 1
-    stale = _has_stereo(m0) and I.stereo_touched_by_keto_enol(m0)
+    stale = _has_stereo(m0) and (I.stereo_touched_by_keto_enol(m0) or I.stereo_touched_by_keto_enol(m0, opts={}))
     if stale:
         acc.member('exc:KeyError@enumerate_tautomers')
     ts = None
